@@ -2,7 +2,7 @@
    The theorems are about ordering and gating in the model. PARTIAL: that OpenSSL actually encrypts, verifies the
    chain, or reports a missing close-notify as an error is runtime behaviour, observed by the correspondence
    (raw bytes ahead of the peer's TLS engine), not provable here. *)
-From LibFtp Require Import Bytes Decimal Reply Endpoint Ascii DataConn DataConn_Proofs Client Client_Proofs Login_Proofs Transfer_Proofs Transfer_More.
+From LibFtp Require Import Bytes Decimal Reply Endpoint Ascii DataConn DataConn_Proofs Client Client_Proofs Login_Proofs Transfer_Proofs Transfer_More Modes_Proofs Ctl_Proofs History_Proofs History2_Proofs Session_Proofs.
 Local Open Scope N_scope.
 
 (* every command line is written inside TLS exactly when the TLS layer of the control socket is up; between the
@@ -102,6 +102,7 @@ Theorem C11_connect_tls : forall w h p s srest g r1 rs a,
   s_reactions s = r1 :: rs -> simple_reaction r1 a -> is_negative a = false -> r_tls_ok r1 = true ->
   exists w', step w (AConnect h p None) = (OReturn (RvReplies [g; a]), w') /\
     insync w' rs /\ w_ssl w' = true /\ w_tls_up w' = true /\ w_sess_id w' = w_next_sess w /\
+    w_script w' = srest /\ w_cfg w' = w_cfg w /\ w_cur6 w' = s_ip6 s /\ w_tls_clean w' = s_tls_close_clean s /\ w_data w' = w_data w /\
     skipn (length (w_trace w)) (w_trace w') =
       [ECtl (CConnect h p true)] ++ block (w_obs w) (OConnected h p) ++ [ERecv (w_ord w) g] ++ block (w_obs w) (OReply g) ++
       block (w_obs w) (ORequest AUTH_TLS) ++ [EWire false (S (w_ord w)) AUTH_TLS] ++ [ERecv (S (w_ord w)) a] ++
@@ -130,3 +131,17 @@ Theorem C11_download_over_tls : forall w path r1 r2 rest x1 x2 x3 ip port,
        DTlsShutdown true; DTcpShutdown; DClose].
 Proof. exact download_passive_complete_tls. Qed.
 Print Assumptions C11_download_over_tls.
+
+(* a WHOLE TLS session - connect (AUTH TLS, handshake), any history in any configuration, QUIT with the TLS shutdown: every call returns its own replies and the client ends disconnected, its socket object plain, holding nothing *)
+Theorem C11_whole_tls_session : forall w0 h p s srest g a r1 cs rss xss rq xq,
+  w_open w0 = false -> w_data w0 = None -> w_script w0 = s :: srest -> s_reachable s = true -> c_tls (w_cfg w0) = true ->
+  r_now (s_greeting s) = [RReply g] -> r_close_after (s_greeting s) = false -> code g <> 421 -> code g <> 120 -> is_negative g = false ->
+  s_reactions s = r1 :: rss ++ [rq] -> simple_reaction r1 a -> is_negative a = false -> r_tls_ok r1 = true ->
+  s_tls_close_clean s = true ->
+  (forall w1, w_cfg w1 = w_cfg w0 -> w_cur6 w1 = s_ip6 s -> historyK (kit_of w1) (c_type (w_cfg w0)) cs rss xss) ->
+  simple_reaction rq xq ->
+  let '(os, w') := steps w0 (AConnect h p None :: cs ++ [ADisconnect true]) in
+  map outcome_replies os = map Some ([g; a] :: xss ++ [[xq]]) /\
+  w_open w' = false /\ w_ssl w' = false /\ w_tls_up w' = false /\ w_data w' = None /\ held w' = O /\ w_script w' = srest.
+Proof. exact whole_session_tls. Qed.
+Print Assumptions C11_whole_tls_session.
